@@ -17,6 +17,7 @@ RULE = ('cases = (a) all score matrices over {0,1,2} for K <= 3 with both assign
         'F >= 3 (aligners) / K >= 2 (matrices); distinct by (lane, aligner, metric, mask class, K, F)')
 DECIDING = ['C14.perm', 'C14.apply', 'C14.mapping', 'C14.aligned', 'C14.inline', 'C14.builtin']
 MIN_DECIDED = {'quick': 400, 'thorough': 4000}
+CASE_TIMEOUT = {'quick': 120, 'thorough': 1200}
 EXHAUSTIVE_NOTE = 'all 3^(K*K) score matrices over {0,1,2} for K = 1, 2, 3 with algorithms greedy and optimal (2 * (3 + 81 + 19683) calls) are driven completely in both tiers'
 ASSUMPTIONS = ['rows of a mask may coincide (constant / tied masks): only bitwise row identity with the mapped input row is demanded']
 MASKS = ['continuous', 'binary', 'int8', 'int32', 'uint8', 'constant', 'zero', 'tied', 'int8-ones']
@@ -49,10 +50,15 @@ def plan(tier, seed):
         cases.append(dict(lane='builtin', K=int(rng.integers(1, 5)), F=int(rng.integers(1, 6)), T=int(rng.integers(1, 30)), spread=float(pick([0.5, 3, 30])),
                           eps=float(pick([0, 0, 1e-10, 1e-3])), wkind=pick(['fk', 'k', 'kt', 'scalar']), rs=[seed, 18, i]))
         i += 1
+    if tier == 'thorough':
+        cases.append(dict(lane='suite', rs=[seed, 99, 0]))
     return cases
 
 
 def run_case(case, R):
+    if case['lane'] == 'suite':
+        from vmon import suite_lane
+        return suite_lane.run(R, ID, paths=('tests/test_distribution', 'pb_bss/permutation_alignment.py', 'pb_bss/distribution/mixture_model_utils.py', 'pb_bss/initializer'))
     with instr.fp_guard():
         globals()['run_' + case['lane']](case, R)
 
